@@ -1175,7 +1175,10 @@ func (t *NftablesTable) Apply() (rescheduleAfter time.Duration) {
 					t.logCxt.Warn("Queueing table recreate due to prior nftables programming error")
 					t.queueTableRecreate()
 				} else {
-					// Reload the data plane state in case we're out of sync.
+					// Reload the data plane state in case we're out of sync.  A failed transaction
+					// may have been committed anyway, so we can't trust our picture of the table
+					// until it has been re-read.
+					t.dataplaneStateLoaded = false
 					t.loadDataplaneState()
 				}
 
